@@ -508,7 +508,7 @@ func (s *Stage) Recover() {
 				oldest = info.ModTime()
 			}
 			base := strings.TrimSuffix(path, compExt)
-			if _, err = os.Stat(base + waitExt); !os.IsNotExist(err) {
+			if _, err = os.Stat(base + waitExt); !os.IsNotExist(err) && s.describesParked(cmp, base) {
 				// .wait
 				s.logDebug("Found ready to finalize:", cmp.Name)
 				finalize = append(finalize, cmp)
@@ -584,6 +584,25 @@ func (s *Stage) Recover() {
 		close(ch)
 		wg.Wait()
 	}
+}
+
+// describesParked tells whether the companion is the record of the parked
+// (.wait) file next to it.  While a newer version of a parked file is being
+// received - its partial or full file is there - the companion is the newer
+// version's, and the parked file is what the newer one will replace: only its
+// content can tell then.
+func (s *Stage) describesParked(cmp *sts.Partial, base string) bool {
+	_, errPart := os.Stat(base + partExt)
+	_, errFull := os.Stat(base + fullExt)
+	if os.IsNotExist(errPart) && os.IsNotExist(errFull) {
+		return true
+	}
+	hash, err := fileutil.FileMD5(base + waitExt)
+	if err != nil || hash != cmp.Hash {
+		s.logInfo("Parked file superseded by a newer version in progress:", cmp.Name)
+		return false
+	}
+	return true
 }
 
 func (s *Stage) CleanNow() {
